@@ -499,6 +499,10 @@ def check_use(rep, repo, f):
         rep.inconclusive('C17.R5', g.where, 'the list-drawing function is inside the interpreted fragment', got=str(u))
         return
     dist_calls = [e for e, c in iter_effects(effs) if e.kind == 'call' and e.target is f]
+    if not dist_calls:
+        # the weights reach the draw some other way (a class, an inlined formula): which vector is drawn from is not decided here
+        rep.inconclusive('C17.R5', g.where, 'the list-drawing function obtains its weights from %s' % f.name, got='no call of %s in %s' % (f.name, g.name))
+        return
     rep.check(len(dist_calls) == 1, 'C17.R5', g.where, 'the distribution is computed once per instance', got='%d calls' % len(dist_calls), construct='distribution call count')
     if len(dist_calls) != 1:
         return
